@@ -18,3 +18,12 @@ def run(tmp, args=(), env=None, timeout=60):
         return p.returncode, p.stdout.decode(errors="replace")
     except subprocess.TimeoutExpired:
         return 124, "TIMEOUT"
+def build_preload(repo, tmp, test_env_ini=True):
+    """LD_PRELOAD-able library from the CURRENT working tree: all library sources + the exec entrypoint
+    (test_env_ini: the test-suite's wrapper that reads the ini path from $SNOOPY_INI)"""
+    srcs = [f for f in glob.glob(repo + "/src/*.c") + glob.glob(repo + "/src/*/*.c") if "/cli/" not in f and "/entrypoint/" not in f] + [repo + "/lib/inih/src/ini.c"]
+    srcs.append(repo + ("/src/entrypoint/execve-wrapper-test-configfile-env.c" if test_env_ini else "/src/entrypoint/execve-wrapper.c"))
+    so = tmp + "/libwrap.so"
+    cmd = ["gcc", "-g", "-O0", "-shared", "-fPIC", "-DHAVE_CONFIG_H", "-I" + repo, "-I" + repo + "/src"] + srcs + ["-o", so, "-ldl", "-lpthread"]
+    p = subprocess.run(cmd, stdout=subprocess.PIPE, stderr=subprocess.STDOUT)
+    return p.returncode, p.stdout.decode(errors="replace"), so
